@@ -347,6 +347,20 @@ func (w *world) exec(st step) error {
 			time.Sleep(2 * time.Millisecond)
 		}
 		w.w.Emit(trace.Ev{"t": "disc", "c": st.C})
+	case "reopen":
+		s := w.subs[st.C]
+		if s.alive {
+			return nil
+		}
+		rc, err := dial(w.c.Members[s.member-1].Name)
+		if err != nil {
+			return err
+		}
+		s.conn, s.alive = rc, true
+		if err := w.subscribeAck(s, "subscribe", barrier); err != nil {
+			return err
+		}
+		w.w.Emit(trace.Ev{"t": "reopen", "c": st.C})
 	case "pub":
 		w.nmsg++
 		msg := fmt.Sprintf("m%d", w.nmsg)
@@ -456,6 +470,8 @@ func randomProgram(rng *rand.Rand, n int) []step {
 			out = append(out, step{Op: "unsuball", C: c, Pat: rng.Intn(2) == 0})
 		case x < 64:
 			out = append(out, step{Op: "disc", C: c})
+		case x < 68:
+			out = append(out, step{Op: "reopen", C: c})
 		case x < 88:
 			out = append(out, step{Op: "pub", M: 1 + rng.Intn(2), Ch: channels[rng.Intn(len(channels))]})
 		default:
